@@ -7,4 +7,7 @@ cd "$VERIF_DIR/harness"
 mkdir -p "$VERIF_DIR/.build" "$VERIF_DIR/evidence" "$VERIF_DIR/replays"
 "$VERIF_DIR/bin/vcheck" >/dev/null 2>&1 || true   # builds (prints usage, exit 2)
 test -x "$VERIF_DIR/.build/vcheck"
+# pre-warm the scheduler-instrumented build used by C04 (engine-transaction kill points), C11 and C12; the checks rebuild
+# it from the working tree anyway, so a failure here is not fatal
+"$VERIF_DIR/bin/vcheck" --build-sched >/dev/null 2>&1 || true
 echo "setup ok"
